@@ -196,6 +196,16 @@ def solve(A, y, nnls):
     return c, y - A @ c
 
 
+def note_solve(out, A, y):
+    """Conditioning and scale of one linear solve: 'kappa' and 'huge' (F13 regime clauses, see c01.f13_predicate)."""
+    out["kappa"] = max(out["kappa"], kappa(A))
+    if A.shape[1]:
+        with np.errstate(all="ignore"):
+            g = np.max(np.abs(A.T @ y)) if y.size else 0.0
+        if not np.isfinite(g) or g > 10.0 * max(A.shape):
+            out["huge"] = True
+
+
 def kappa(A):
     if A.shape[1] == 0:
         return 1.0
@@ -221,7 +231,7 @@ def evaluate_group(case, g, pv, data, linked):
     nnls = gd["residual_function"] == "non_negative_least_squares"
     dss = group_datasets(case, g)
     out = {"residuals": {}, "clps": {}, "clp_labels": {}, "penalties": [], "n_clps": 0, "kappa": 1.0, "weights": {},
-           "full": {}, "linked": linked, "aligned": None, "nnls": nnls}
+           "full": {}, "linked": linked, "aligned": None, "nnls": nnls, "huge": False}
     mats = {}
     for ds in dss:
         D, Wd = data[ds["label"]]
@@ -257,7 +267,7 @@ def evaluate_group(case, g, pv, data, linked):
                     w = W.T.reshape(-1)
                     F, y = F * w[:, None], y * w
                 c, r = solve(F, y, nnls)
-                out["kappa"] = max(out["kappa"], kappa(F))
+                note_solve(out, F, y)
                 out["full"][label] = {"clp": c.reshape(len(gl), len(ml)), "global_labels": gl, "labels": ml,
                                       "residual": r.reshape(ng, nt).T, "M": M, "G": G}
                 for i in range(ng):
@@ -272,7 +282,7 @@ def evaluate_group(case, g, pv, data, linked):
                 if W is not None:
                     A, y = A * W[:, i][:, None], y * W[:, i]
                 c, r = solve(A, y, nnls)
-                out["kappa"] = max(out["kappa"], kappa(A))
+                note_solve(out, A, y)
                 out["residuals"][(label, i)] = r
                 full = expand(c)
                 out["clps"][(label, i)] = full
@@ -311,7 +321,7 @@ def evaluate_group(case, g, pv, data, linked):
         elif anyw:
             pass
         c, r = solve(A, y, nnls)
-        out["kappa"] = max(out["kappa"], kappa(A))
+        note_solve(out, A, y)
         full = expand(c)
         out["n_clps"] += len(rl)
         start = 0
